@@ -117,7 +117,8 @@ def h_send_headers_id():
         with h2h.native():
             c, s = h2h.pair()
         H = _sym_parity('highest_out', 1, 5)
-        _set_marks(c, H, 0)
+        Hin = _sym_parity('highest_in', 0, 0)
+        _set_marks(c, H, Hin)
         sid = sym_int('sid', 1, INT31, default=7)
         symmap.linear_streams(c)
         out = models.Out(c)
@@ -126,14 +127,19 @@ def h_send_headers_id():
             c.send_headers(sid, h2h.REQ)
         except h2.exceptions.StreamIDTooLowError:
             note('too-low')
-            check(s_le(sid, H), 'toolow-for-higher-id', (sid, H))
+            odd = s_eq(sid - 2 * (sid // 2), 1)
+            # (an id of the peer's parity is compared with the peer's mark)
+            check(s_ite(odd, s_le(sid, H), s_le(sid, Hin)), 'toolow-for-higher-id',
+                  (sid, H, Hin))
             check(out.nbytes() == 0, 'raise-emits', None)
             check(c.highest_outbound_stream_id == H, 'raise-moves-mark', None)
+            check(c.highest_inbound_stream_id == Hin, 'raise-moves-peer-mark', None)
         except h2.exceptions.ProtocolError:
             note('refused')
             check(s_not(ok), 'valid-id-refused', (sid, H))
             check(out.nbytes() == 0, 'raise-emits', None)
             check(c.highest_outbound_stream_id == H, 'raise-moves-mark', None)
+            check(c.highest_inbound_stream_id == Hin, 'raise-moves-peer-mark', None)
         else:
             note('opened')
             check(ok, 'invalid-id-accepted', (sid, H))
@@ -157,7 +163,8 @@ def h_push_id():
         with h2h.native():
             c, s = _server_with_parent()
         H = _sym_parity('highest_out', 0, 4)
-        _set_marks(s, H, 1)
+        Hin = _sym_parity('highest_in', 1, 1)
+        _set_marks(s, H, Hin)
         pid = sym_int('promised', 1, INT31, default=6)
         symmap.linear_streams(s)
         out = models.Out(s)
@@ -169,6 +176,7 @@ def h_push_id():
             check(s_not(ok), 'valid-promised-id-refused', (pid, H))
             check(out.nbytes() == 0, 'raise-emits', None)
             check(s.highest_outbound_stream_id == H, 'raise-moves-mark', None)
+            check(s.highest_inbound_stream_id == Hin, 'raise-moves-peer-mark', None)
         else:
             note('pushed')
             check(ok, 'invalid-promised-id-accepted', (pid, H))
